@@ -25,7 +25,8 @@ contract(CT + "parse_type#canonical",
                         variant="k - ptr_depth + 1")})
 
 # ---- parse_type: general facts usable at call sites
-contract(CT + "parse_type",
+uninterpreted("parsed_type", [Str], CPPParsedTypeInfo)   # ghost: parse_type as a mathematical function of its argument (it reads nothing else)
+contract(CT + "parse_type", pure_fn="parsed_type",
          props=["C10"],
          params=dict(t_name=Str),
          result=CPPParsedTypeInfo,
